@@ -86,7 +86,7 @@ def make(keys, widths, sym_positions, veto):
         cells = [args["c%d" % i] for i in range(NSYM)]
         rows = rows_of(cells)
         cid = interface.create_cid_from_string(text)
-        cid.data_format._header = args["header"]
+        rf.set_header(cid, args["header"])
         src = rf.real_source_or_rows(cid, rows)
         how = "real csv text"
         ctx = patched()
